@@ -591,3 +591,84 @@ pub fn c19(sk: &Skeleton) -> Leaf {
     }
     leaf
 }
+
+/// Byte-transfer map of the converter's free-text fields (for the PEGSMT free-text query): for every byte b < 0x80 the
+/// Description / Symbol of an unknown-action row is "x{b}y"; reports what stands between "x" and "y" in the output.
+pub fn c18_bytes(_sk: &Skeleton) -> Leaf {
+    let mut leaf = Leaf { outcome: "ok".into(), ..Default::default() };
+    let mut maps = serde_json::Map::new();
+    let mut template = String::new();
+    for field in ["Description", "Symbol"] {
+        let mut m: Vec<Value> = Vec::new();
+        for b in 0u8..128 {
+            let probe = format!("x{}y", b as char);
+            let mut row = json!({"Date": "01/10/2024", "Action": "Mystery Action", "Symbol": "ZZ", "Description": "d", "Quantity": "", "Price": "", "Fees & Comm": "", "Amount": ""});
+            row[field] = json!(probe);
+            let tj = json!({"BrokerageTransactions": [row]}).to_string();
+            let out = SchwabConverter::new().convert(&SchwabInput { transactions_json: tj, awards_json: None });
+            match out {
+                Ok(o) => {
+                    // the line(s) of the output from the one holding "x" onwards
+                    let text = o.cgt_content;
+                    let found = text.find("Mystery Action").and_then(|i| {
+                        let rest = &text[i..];
+                        let xs = rest.find('x')?;
+                        let ys = rest[xs + 1..].find('y')?;
+                        Some(rest[xs + 1..xs + 1 + ys].to_string())
+                    });
+                    if template.is_empty() {
+                        if let Some(l) = text.lines().find(|l| l.contains("Mystery Action") && l.starts_with('#')) {
+                            template = l.to_string();
+                        }
+                    }
+                    m.push(match found {
+                        Some(s) => json!(s.bytes().collect::<Vec<u8>>()),
+                        None => Value::Null,
+                    });
+                }
+                Err(e) => m.push(json!({"err": e.to_string()})),
+            }
+        }
+        maps.insert(field.to_string(), Value::Array(m));
+    }
+    // the fields are treated byte-wise: 50 pseudo-random 6-byte strings (seeded) must come out as the per-byte images
+    let mut seed = _sk.opt_i64("seed").unwrap_or(1) as u64 ^ 0x9E3779B97F4A7C15;
+    let mut multi_ok = 0;
+    let mut multi_bad: Vec<String> = Vec::new();
+    let desc_map = maps["Description"].as_array().cloned().unwrap_or_default();
+    for _ in 0..50 {
+        let mut probe = String::from("x");
+        let mut want: Vec<u8> = Vec::new();
+        for _ in 0..6 {
+            seed = seed.wrapping_mul(6364136223846793005).wrapping_add(1442695040888963407);
+            let mut b = ((seed >> 33) % 128) as u8;
+            if b == b'x' || b == b'y' {
+                b = b'q';
+            }
+            probe.push(b as char);
+            match desc_map.get(b as usize).and_then(|v| v.as_array()) {
+                Some(img) => want.extend(img.iter().filter_map(|x| x.as_u64()).map(|x| x as u8)),
+                None => want.push(b),
+            }
+        }
+        probe.push('y');
+        let row = json!({"Date": "01/10/2024", "Action": "Mystery Action", "Symbol": "ZZ", "Description": probe, "Quantity": "", "Price": "", "Fees & Comm": "", "Amount": ""});
+        let tj = json!({"BrokerageTransactions": [row]}).to_string();
+        if let Ok(o) = SchwabConverter::new().convert(&SchwabInput { transactions_json: tj, awards_json: None }) {
+            let text = o.cgt_content;
+            let got = text.find("Mystery Action").and_then(|i| {
+                let rest = &text[i..];
+                let xs = rest.find("(x")?;
+                let ys = rest[xs + 2..].rfind("y)")?;
+                Some(rest[xs + 2..xs + 2 + ys].as_bytes().to_vec())
+            });
+            if got.as_deref() == Some(&want[..]) {
+                multi_ok += 1;
+            } else {
+                multi_bad.push(format!("{:?} -> {:?}, per-byte images give {:?}", probe, got, want));
+            }
+        }
+    }
+    leaf.extra = json!({"maps": maps, "template": template, "multi_ok": multi_ok, "multi_bad": multi_bad});
+    leaf
+}
